@@ -70,6 +70,8 @@ if __name__ == "__main__":
     E["C04-original-reads-overwritten-source-at-save"] = ("C04", [{"op": "init", "source": "sample:span_style.odt", "how": "path", "salt": 7}, SAVE(target="inplace"), {"op": "clone_swap"}, {"op": "add_file", "via": "chunked", "content": 2}, SAVE(target="existing", existing=0), {"op": "save_other"}], "violation")
     E["C10-original-reads-overwritten-source-at-save"] = ("C10", [{"op": "init", "source": "sample:frame_image.odp", "how": "path", "salt": 9}, {"op": "clone_doc"}, {"op": "add_file", "via": "image", "content": 1, "on": "twin"}, {"op": "twin_save_over_source"}, {"op": "twin_package_check"}], "violation", DCFG)
     E["fixed-C11-pretty-save-raises-on-comment"] = ("C11", [{"op": "init", "source": "template:text"}, {"op": "set_part", "kind": "xml", "n": 1, "name": "settings.xml"}, {"op": "save_set", "variants": [{"packaging": "zip", "pretty": True, "target": "bytesio"}]}], "pass")
+    E["C01-col-group-mutation"] = ("C01", [RLE([{"cells": [{"v": 1}]}], wrap_cols="columns"), {"op": "set_cell", "c": {"x": 1, "y": 0}, "cell": {"v": 3}}], "violation")
+    E["C17-col-group-mutation"] = ("C17", [RLE([{"cells": [{"v": "s2"}]}], cols=[{}, {}], wrap_cols="header"), LAW("span", pre=["rstrip_aggr"], area={"a": [2, 0, 4, 1]}, merge=False)], "violation")
     for fid, ent in E.items():
         prop, ops, expect = ent[:3]
         cfg = ent[3] if len(ent) > 3 else None
